@@ -71,6 +71,9 @@ func poolFor(v *smt.Term, consts map[smt.Sort]map[uint64]bool) []uint64 {
 			}
 		}
 		out = append(out, 0, 1, m, 0x41, 0x4E2D)
+		for k := range out {
+			out[k] &= m
+		}
 	}
 	return out
 }
